@@ -37,17 +37,14 @@ type c20Item struct {
 }
 
 type c20Query struct {
-	Grid   bool `json:"grid,omitempty"`   // FROM g: the rows of t, two to an inner array (rows that are arrays themselves)
-	Ragged bool `json:"ragged,omitempty"` // FROM r: the rows of t, every second one wrapped in an inner array of its own (objects and arrays side by side)
-	// nestedFirst makes the model evaluate the rows of a ragged source the way the engine is known to (the recorded
-	// finding): the rows inside inner arrays first, then the object rows. Used to recognise that finding only.
-	nestedFirst bool
-	Order       string    `json:"order,omitempty"` // ORDER BY on a column the select list does not produce: rows are still evaluated in source order
-	Twice       bool      `json:"twice,omitempty"` // Exec is called a second time on the same Query
-	Items       []c20Item `json:"items"`
-	WhereK      int       `json:"where_k"` // -1 none; else  a >= WhereK
-	Dual        bool      `json:"dual"`
-	SQL         string    `json:"sql"`
+	Grid   bool      `json:"grid,omitempty"`   // FROM g: the rows of t, two to an inner array (rows that are arrays themselves)
+	Ragged bool      `json:"ragged,omitempty"` // FROM r: the rows of t, every second one wrapped in an inner array of its own (objects and arrays side by side)
+	Order  string    `json:"order,omitempty"`  // ORDER BY on a column the select list does not produce: rows are still evaluated in source order
+	Twice  bool      `json:"twice,omitempty"`  // Exec is called a second time on the same Query
+	Items  []c20Item `json:"items"`
+	WhereK int       `json:"where_k"` // -1 none; else  a >= WhereK
+	Dual   bool      `json:"dual"`
+	SQL    string    `json:"sql"`
 }
 
 type c20Expect struct {
@@ -56,10 +53,6 @@ type c20Expect struct {
 	Rows2   [][]any          `json:"rows2"` // expected rows of the second Exec (nil: not executed twice)
 	Vars    []map[string]any `json:"vars"`  // expected caller map after each query
 	Init    map[string]any   `json:"init"`
-	// for a history over a ragged source (one query): what the recorded finding's evaluation order gives
-	AltRows  []any          `json:"alt_rows,omitempty"`
-	AltRows2 []any          `json:"alt_rows2,omitempty"`
-	AltVars  map[string]any `json:"alt_vars,omitempty"`
 }
 
 func (it c20Item) ksql() string {
@@ -153,6 +146,7 @@ var c20KeyForms = [][]c20Key{
 	{{"2", "2"}, {"2", "'2'"}, {"2", "1 + 1"}},
 	{{"1.5", "1.5"}, {"1.5", "'1.5'"}, {"1.5", "3 / 2"}},
 	{{"0.5", "0.5"}},
+	{{"ü", "'ü'"}},
 }
 
 // c20Model replays one query on the register model: the rows the first Exec must return, and - when the query is
@@ -172,19 +166,8 @@ func c20Model(q *c20Query, table []any, model map[string]any) (rows1, rows2 []an
 		rows1 = rows
 		rows = []any{}
 		var deferred []func()
-		order := []int{}
-		for i := range src {
-			if !(q.Ragged && q.nestedFirst) || i%2 == 1 {
-				order = append(order, i)
-			}
-		}
-		for i := range src {
-			if q.Ragged && q.nestedFirst && i%2 == 0 {
-				order = append(order, i)
-			}
-		}
 		byIdx := map[int]any{}
-		for _, si := range order {
+		for si := range src {
 			row := src[si].(map[string]any)
 			if q.WhereK >= 0 && row["a"].(float64) < float64(q.WhereK) {
 				continue
@@ -339,7 +322,6 @@ func genC20(t *rapid.T) *Bundle {
 		init[keys[0]] = rapid.SampledFrom([]any{"init", "1", float64(1), true}).Draw(t, "preset_value")
 	}
 	nq := rapid.IntRange(1, 4).Draw(t, "nqueries")
-	altModel := map[string]any{}
 	exp := c20Expect{Init: init}
 	model := map[string]any{}
 	for k, v := range init {
@@ -351,9 +333,6 @@ func genC20(t *rapid.T) *Bundle {
 	varCorunner := false
 	// a source that mixes objects and arrays of objects (every non-dual query of the history reads it)
 	ragged := rapid.IntRange(0, 9).Draw(t, "ragged_source") == 0
-	if ragged {
-		nq = 1
-	}
 	for qi := 0; qi < nq; qi++ {
 		q := c20Query{WhereK: -1}
 		q.Dual = rapid.IntRange(0, 5).Draw(t, "dual") == 0
@@ -442,7 +421,7 @@ func genC20(t *rapid.T) *Bundle {
 					it.VNum = float64(rapid.SampledFrom([]int{0, 1, 7, -2, 3}).Draw(t, "vnum"))
 				case "str":
 					// incl. strings that print like numbers, booleans and NULL: a register holds the value written, not a look-alike
-					it.VStr = rapid.SampledFrom([]string{"p", "q", "", "1", "0", "7", "true", "<nil>"}).Draw(t, "vstr")
+					it.VStr = rapid.SampledFrom([]string{"p", "q", "", "1", "0", "7", "true", "<nil>", "é", "日本"}).Draw(t, "vstr")
 				case "getvar":
 					it.VKey = rapid.SampledFrom(keys).Draw(t, "vkey")
 				case "bool":
@@ -483,16 +462,6 @@ func genC20(t *rapid.T) *Bundle {
 			}
 		}
 		q.Twice = rapid.IntRange(0, 3).Draw(t, "exec_twice") == 0
-		if q.Ragged {
-			// (the history over a ragged source is this one query)
-			for k, v := range model {
-				altModel[k] = v
-			}
-			alt := q
-			alt.nestedFirst = true
-			exp.AltRows, exp.AltRows2 = c20Model(&alt, table, altModel)
-			exp.AltVars = altModel
-		}
 		rows1, rows := c20Model(&q, table, model)
 		snap := map[string]any{}
 		for k, v := range model {
@@ -506,7 +475,8 @@ func genC20(t *rapid.T) *Bundle {
 			exp.Rows2 = append(exp.Rows2, nil)
 		}
 		exp.Vars = append(exp.Vars, snap)
-		ops = append(ops, casefmt.Op{Doc: 0, Vars: 0, Query: q.SQL, ExecTwice: q.Twice})
+		// (one query in five is written for the PostgreSQL escaping dialect: the text goes through its pre-processor)
+		ops = append(ops, casefmt.Op{Doc: 0, Vars: 0, Query: q.SQL, ExecTwice: q.Twice, Postgres: rapid.IntRange(0, 4).Draw(t, "postgres_dialect") == 0})
 	}
 	sim := drawSim(t, "")
 	c := casefmt.Case{Prop: "C20", Sim: sim, Docs: []json.RawMessage{rawDoc(map[string]any{"t": table, "g": c20Grid(table), "r": c20Ragged(table)})}, Vars: []map[string]any{init},
@@ -600,12 +570,7 @@ func evalC20(b *Bundle, r *Runner) []*Violation {
 					}
 				}
 			}
-			site := ""
-			if exp.Queries[qi].Ragged && exp.AltRows != nil && jsonEqual(got, any(exp.AltRows)) {
-				// exactly what evaluating the rows of the inner arrays before the object rows gives
-				site = "ragged_nested_first"
-			}
-			return []*Violation{mkViolation(b, cls, site, fmt.Sprintf("query %d of %d: %s\n history so far: %s\n model  %s\n engine %s", qi+1, len(exp.Queries), q, c20History(&exp, qi), canonText(want), compact(op.Rows)), o)}
+			return []*Violation{mkViolation(b, cls, "", fmt.Sprintf("query %d of %d: %s\n history so far: %s\n model  %s\n engine %s", qi+1, len(exp.Queries), q, c20History(&exp, qi), canonText(want), compact(op.Rows)), o)}
 		}
 		if string(op.Rows) != string(op.RowsAfter) && !exp.Queries[qi].Twice {
 			return []*Violation{mkViolation(b, "RESULT_CHANGED_AFTER_RETURN", "", q, o)}
@@ -619,9 +584,6 @@ func evalC20(b *Bundle, r *Runner) []*Violation {
 				return []*Violation{mkViolation(b, "VAR_QUERY_FAILED", "second_exec", fmt.Sprintf("query %d %q: the second Exec on the same Query: %s", qi, q, op.Exec2), o)}
 			}
 			if !jsonEqual(normJSON(op.Rows2), want2) {
-				if exp.Queries[qi].Ragged && exp.AltRows2 != nil && jsonEqual(normJSON(op.Rows2), any(exp.AltRows2)) {
-					return []*Violation{mkViolation(b, "REGISTER_READ", "ragged_nested_first", fmt.Sprintf("second Exec of %s\n model  %s\n engine %s", q, canonText(want2), compact(op.Rows2)), o)}
-				}
 				return []*Violation{mkViolation(b, "REGISTER_READ", "second_exec", fmt.Sprintf("query %d of %d, Exec called a second time on the same Query: %s\n history so far: %s\n model  %s\n engine %s", qi+1, len(exp.Queries), q, c20History(&exp, qi), canonText(want2), compact(op.Rows2)), o)}
 			}
 			r.Stats.probe("second_exec_on_same_query_compared")
@@ -632,11 +594,7 @@ func evalC20(b *Bundle, r *Runner) []*Violation {
 			delete(gm, "zz") // written by ASYNC co-runners in schedule order: not part of the register model
 		}
 		if !jsonEqual(gotVars, wantVars) {
-			site := ""
-			if exp.Queries[qi].Ragged && exp.AltVars != nil && jsonEqual(gotVars, any(exp.AltVars)) {
-				site = "ragged_nested_first"
-			}
-			return []*Violation{mkViolation(b, "REGISTER_FINAL_STATE", site, fmt.Sprintf("after query %d of %d: %s\n history so far: %s\n model map  %s\n caller map %s", qi+1, len(exp.Queries), q, c20History(&exp, qi), canonText(wantVars), compact(op.VarsAfter)), o)}
+			return []*Violation{mkViolation(b, "REGISTER_FINAL_STATE", "", fmt.Sprintf("after query %d of %d: %s\n history so far: %s\n model map  %s\n caller map %s", qi+1, len(exp.Queries), q, c20History(&exp, qi), canonText(wantVars), compact(op.VarsAfter)), o)}
 		}
 	}
 	if len(exp.Queries) > 1 {
